@@ -590,6 +590,8 @@ def encode_number_facts(program, n, signed, res):
         facts['witness'] = '; '.join(facts['pieces'])[:300]
     return facts
 
+NOT_DETERMINED = 'not determined'
+
 def _decoder_points(program, n, signed):
     """decode_number (resolution 1, wide range) evaluated on raw values: -> {raw: outcome}"""
     rows = residual(program, 'decode_number', {'data_raw': D, 'bit_offset': C(0), 'bit_length': C(n), 'signed': C(signed), 'resolution': C(1),
@@ -601,14 +603,17 @@ def _decoder_points(program, n, signed):
 def decoder_na(program, n, signed):
     """the raw number the decoder reports as absent for an n-bit field (resolution 1, wide range): read off the decision list, or, when that
     is not of the recognised form, found by evaluating it on raw values"""
-    k, ln = _decoder_na_structural(program, n, signed)
+    try:
+        k, ln = _decoder_na_structural(program, n, signed)
+    except AnalysisError:
+        k, ln = None, 0
     if k is not None:
         return k, ln
     from . import teval
     try:
         out, ln = _decoder_points(program, n, signed)
-    except (teval.EvalUnknown, KeyError, TypeError):
-        return None, ln
+    except (teval.EvalUnknown, KeyError, TypeError, AnalysisError):
+        return NOT_DETERMINED, ln
     half = 1 << (n - 1)
     nones = [q for q, r in out.items() if r == ('return', None)]
     if len(nones) == 1:
@@ -686,14 +691,18 @@ def sent_sign_agree(chk, program, sites=None):
         f = encode_number_facts(program, n, s, res)
         users = [u for (n2, s2, r), us in nt.items() if (n2, s2) == (n, s) for u in us]
         inst = f"bits={n},signed={s}"
-        if n < 2 and dna is None and f['na'] is not None:
+        if dna == NOT_DETERMINED:
+            chk.unknown('SENT-AGREE', f"encode_number::{inst}", "the decoder's not-available code could be neither read off decode_number nor found by evaluating it", UT, f['line'])
+        elif n < 2 and dna is None and f['na'] is not None:
             # 1-bit fields: the decoder has no not-available code; nothing to agree on
             chk.ok('SENT-AGREE', f"encode_number::{inst}", file=UT, line=f['line'], nontrivial=False)
         else:
             chk.check(dna is not None and dna == f['na'], 'SENT-AGREE', f"encode_number::{inst}", file=UT, line=f['line'], func='encode_number',
                       expected=f"encoder's pattern for None == decoder's `raw == K -> None` constant ({dna})", found=f['na'],
                       detail=f"{len(users)} encodable fields, e.g. {users[0][0].key}:{users[0][1].dbid}")
-        if s:
+        if s and dna == NOT_DETERMINED:
+            pass
+        elif s:
             dw = decoder_wrap(program, n)
             chk.check(dw is not None and dw == f['wrap'], 'SIGN-AGREE', f"encode_number::{inst}", file=UT, line=f['line'], func='encode_number',
                       expected=f"negative values wrapped by +{dw} (inverse of the decoder's -{dw})", found=f['wrap'])
@@ -708,6 +717,9 @@ def sent_sign_agree(chk, program, sites=None):
                 site_signed[(fname, f.id)] = row['cls'].get('absent_signed')
     for (n, s), users in sorted(tt.items()):
         dna, dl = decoder_na(program, n, s)
+        if dna == NOT_DETERMINED:
+            chk.unknown('SENT-AGREE', f"encode_time::bits={n},signed={s}", "the decoder's not-available code could not be determined", UT, dl)
+            continue
         for (d, f) in users:
             # the signedness the generated call site hands to encode_time (None = argument omitted -> helper default)
             passed = site_signed.get((f"encode_pgn_{d.suffix}", f.id))
